@@ -112,6 +112,7 @@ fn child(args: &[String]) -> i32 {
     std::panic::set_hook(Box::new(|_| {}));
     match args[0].as_str() {
         "c02" => c02::child(&args[1..]),
+        "c15" => c15::child(&args[1..]),
         "c16" => c16::child(&args[1..]),
         "c18" => c18::child(&args[1..]),
         _ => 2,
